@@ -91,8 +91,9 @@ let () =
       let r = on_store s (fun x -> vstep x (ORestoreRemote (n_of_hex t, n_of_hex i))) in Printf.printf "%s\t%s\n" id (obs r)
     | id :: "TO" :: "V" :: s :: t :: i :: _ ->
       let (a, b) = !st in
-      let r = if s = "0" then (let (b', r) = vcopy_remote a b (n_of_hex t) (n_of_hex i) in st := (a, b'); r)
-              else (let (a', r) = vcopy_remote b a (n_of_hex t) (n_of_hex i) in st := (a', b); r) in
+      (* store s is the source (source id = its number + 1), the other store receives *)
+      let r = if s = "0" then (let (b', r) = vtransfer a b (n_of_int 1) (n_of_hex t) (n_of_hex i) in st := (a, b'); r)
+              else (let (a', r) = vtransfer b a (n_of_int 2) (n_of_hex t) (n_of_hex i) in st := (a', b); r) in
       Printf.printf "%s\t%s\n" id (obs r)
     | id :: "TO" :: "S" :: s :: i :: _ -> let r = on_store s (fun x -> vstep x (OSetLatest (n_of_hex i))) in Printf.printf "%s\t%s\n" id (obs r)
     | id :: "TO" :: "O" :: s :: t :: i :: _ ->
@@ -159,6 +160,28 @@ let () =
             hex_of_bytes nm ^ ":" ^ (match c.cd_info with None -> "-" | Some x -> hex_of_bytes x) ^ ":" ^ fl) bd' in
           "reused=" ^ (match ru with None -> "-" | Some x -> hex_of_bytes x) ^ " " ^ (if dirs = [] then "-" else String.concat "," dirs)) in
       Printf.printf "%s\t%s\n" id out
+    | id :: "RS" :: _ ->
+      (* two sources A (id 1) and B (id 2) hold a checkpoint of the same (term,index) with different content;
+         store C transfers + applies from A, repeats the request, then transfers + applies from B *)
+      let n = n_of_int in
+      let mk v = fst (vstep (fst (vstep (vinit N0 (n v)) (OBackup (n 2, n 7, n v)))) (OFinish (n (100 + v), n v))) in
+      let a = mk 11 and b = mk 22 in
+      let c0 = vinit N0 (n 5) in
+      let ap c = vstep c (ORestoreRemote (n 2, n 7)) in
+      let (c1, r1) = vtransfer a c0 (n 1) (n 2) (n 7) in let (c2, r2) = ap c1 in
+      let (c3, r3) = vtransfer (vinit N0 (n 0)) c2 (n 1) (n 2) (n 7) in      (* A's checkpoint is gone: the repeated request must not fetch *)
+      let (c4, r4) = ap c3 in
+      let (c5, r5) = vtransfer b c4 (n 2) (n 2) (n 7) in let (c6, r6) = ap c5 in
+      let w c = (match int_of_n c.vs_val with 11 -> "A" | 22 -> "B" | _ -> "other") in
+      Printf.printf "%s\tfromA=%s/%s:%s repeatA=%s/%s:%s fromB=%s/%s:%s\n" id (res_str r1) (res_str r2) (w c2) (res_str r3) (res_str r4) (w c4) (res_str r5) (res_str r6) (w c6)
+    | id :: "MS" :: _ ->
+      (* value level: backup, more writes, restore, reopen from the checkpoint: the content of the backup instant *)
+      let n = n_of_int in
+      let ops s l = List.fold_left (fun s o -> fst (vstep s o)) s l in
+      let s1 = ops (vinit N0 (n 1)) [OBackup (n 3, n 9, n 1); OFinish (n 50, n 1); OWrite (n 2)] in
+      let (s2, r) = vstep s1 (ORestore (n 3, n 9)) in
+      Printf.printf "%s\tbackup=ok restore=%s:%s again=%s\n" id (res_str r) (if int_of_n s2.vs_val = 1 then "exact" else "WRONG-content")
+        (let (s3, r3) = vstep (ops s2 [OWrite (n 3)]) (ORestore (n 3, n 9)) in res_str r3 ^ ":" ^ (if int_of_n s3.vs_val = 1 then "exact" else "WRONG-content"))
     | id :: "FF" :: _ ->
       (* a transfer that fails midway (process alive), then the retry, then Restore; the engine is
          assumed to open half written directories *)
@@ -185,12 +208,18 @@ let () =
           let bad = List.filter (fun k -> verdict k = "checkpoint-restores-WRONG-content") [0;1;2;3;4;5] in
           if bad = [] then "checkpoint-refused-or-exact" else "killed checkpoint-restores-WRONG-content") in
       Printf.printf "%s\t%s\n" id out
-    | id :: "CR" :: eng :: point :: _ ->
-      let s0 = { rs_data = DOld; rs_marked = false } in
-      let at k = (match open_after_crash (rrun s0 (firstn_ml k restore_steps)) with DOld -> "open=pre-restore" | DNew -> "open=restored" | DMixed -> "open=OTHER-content") in
+    | id :: (("CR" | "CRR") as kd) :: eng :: point :: _ ->
+      (* CR: a local restore is interrupted; CRR: RestoreFromRemoteBackup is, while the local backup
+         directory holds a checkpoint of the same name with other content *)
+      let from = if kd = "CRR" then FromRemote else FromLocal in
+      let s0 = { rs_data = DOld; rs_marked = None } in
+      let at k = (match open_after_crash (rrun s0 (firstn_ml k (restore_steps from))) with
+                  | DOld -> "open=pre-restore" | DMixed -> "open=OTHER-content"
+                  | DNew f -> if f = from then "open=restored" else "open=LOCAL-checkpoint-content") in
       let timed = String.length point > 0 && point.[0] = 't' in
       let o = (if timed || eng = "mem" then
-                 (if List.exists (fun k -> at k = "open=OTHER-content") [0;1;2;3;4] then "open=OTHER-content" else "open=complete")
+                 (match List.filter (fun k -> at k <> "open=pre-restore" && at k <> "open=restored") [0;1;2;3;4] with
+                  | [] -> "open=complete" | k :: _ -> at k)
                else "killed " ^ (match point with "rs.remove.after" -> at 2 | _ -> at 3)) in
       Printf.printf "%s\t%s restart-restores-exactly checkpoint-unchanged\n" id o
     | id :: "CF" :: _ ->
